@@ -16,6 +16,8 @@ mod ordered_commit;
 #[cfg(test)]
 mod tests;
 mod wait;
+#[cfg(feature = "verif")]
+pub mod verif_api;
 
 use crate::{
     AbortReason, GrevmConfig, GrevmError, LocationAndType, MVMemory, ParallelState, ReadVersion,
@@ -239,6 +241,8 @@ where
         let dependency_distance = self.metrics.dependency_distance_histogram();
         while !self.is_aborted() && finality_idx < self.block_size {
             let previous_finality_idx = finality_idx;
+            #[cfg(feature = "verif")]
+            crate::verif::point(crate::verif::pt::FIN_LOOP, finality_idx);
             while let Some((mut tx_state, effective_lower_ts)) =
                 self.lock_finality_candidate(finality_idx, lower_ts)
             {
@@ -248,6 +252,10 @@ where
                 tx_state.status = TransactionStatus::Finality;
                 drop(tx_state);
 
+                #[cfg(feature = "verif")]
+                crate::verif::event(crate::verif::Event::Finality { txid: finality_idx, incarnation, unconfirmed_ts: self.scheduler_ctx.unconfirmed_timestamp(finality_idx), lower_ts });
+                #[cfg(feature = "verif")]
+                crate::verif::point(crate::verif::pt::FIN_PUBLISH, finality_idx);
                 let next_finality_idx = finality_idx + 1;
                 self.scheduler_ctx.publish_finality(next_finality_idx);
                 if finality_idx == previous_finality_idx {
@@ -302,6 +310,8 @@ where
         // Read the validation frontier first, then decide status and timestamp eligibility under
         // the transaction lock. Together with contiguous finality, this prevents a candidate from
         // passing a rewind that invalidates it or an earlier transaction.
+        #[cfg(feature = "verif")]
+        crate::verif::lock_point(crate::verif::pt::LOCK_TX_STATE, finality_idx, &self.tx_states[finality_idx]);
         let tx_state = self.tx_states[finality_idx].lock();
         if tx_state.status != TransactionStatus::Unconfirmed {
             return None;
@@ -310,6 +320,8 @@ where
         // Carry the largest rewind timestamp through the contiguous prefix: every later candidate
         // must have been validated after that rewind as well.
         let effective_lower_ts = max(lower_ts, self.scheduler_ctx.lower_timestamp(finality_idx));
+        #[cfg(feature = "verif")]
+        if self.scheduler_ctx.unconfirmed_timestamp(finality_idx) <= effective_lower_ts { crate::verif::event(crate::verif::Event::FinalityRejected { txid: finality_idx, unconfirmed_ts: self.scheduler_ctx.unconfirmed_timestamp(finality_idx), lower_ts: effective_lower_ts }); }
         (self.scheduler_ctx.unconfirmed_timestamp(finality_idx) > effective_lower_ts)
             .then_some((tx_state, effective_lower_ts))
     }
@@ -325,7 +337,11 @@ where
         let mut commit_idx = 0;
         while !self.is_aborted() && commit_idx < self.block_size {
             let previous_commit_idx = commit_idx;
+            #[cfg(feature = "verif")]
+            crate::verif::point(crate::verif::pt::COMMIT_LOOP, commit_idx);
             while commit_idx < self.scheduler_ctx.finality_idx() {
+                #[cfg(feature = "verif")]
+                crate::verif::lock_point(crate::verif::pt::LOCK_TX_RESULT, commit_idx, &self.tx_results[commit_idx]);
                 let Some(tx_result) = self.tx_results[commit_idx].lock().take() else {
                     self.abort(AbortReason::ParallelError {
                         txid: commit_idx,
@@ -343,6 +359,8 @@ where
                     });
                     return CommitLoopResult { committed: output, error: None };
                 };
+                #[cfg(feature = "verif")]
+                crate::verif::point(crate::verif::pt::COMMIT_APPLY, commit_idx);
                 let commit_start = Instant::now();
                 let outcome =
                     committer.commit(commit_idx, &self.txs[commit_idx], result, &mut output);
@@ -350,14 +368,20 @@ where
                 match outcome {
                     Ok(CommitOutcome::Committed(committed)) => {
                         let next_commit_idx = committed.index();
+                        #[cfg(feature = "verif")]
+                        crate::verif::point(crate::verif::pt::COMMIT_PUBLISH, commit_idx);
                         self.scheduler_ctx.publish_commit(next_commit_idx);
                         // Publish committed state before releasing work that may require it.
+                        #[cfg(feature = "verif")]
+                        crate::verif::point(crate::verif::pt::COMMIT_DEP, commit_idx);
                         self.tx_dependency.commit(commit_idx);
                         commit_idx = next_commit_idx;
                     }
                     Ok(CommitOutcome::NeedsSequentialFallback) => {
                         // The problematic transaction remains uncommitted. Keep the cursor at its
                         // index so sequential fallback revalidates it before processing the suffix.
+                        #[cfg(feature = "verif")]
+                        crate::verif::event(crate::verif::Event::CommitFallback { txid: commit_idx });
                         self.abort(AbortReason::FallbackSequential);
                         return CommitLoopResult { committed: output, error: None };
                     }
@@ -396,6 +420,8 @@ where
         let mut results = self.results.lock();
         assert!(results.is_empty(), "ordered commit outcomes may only be installed once");
         *results = output.into_outcomes();
+        #[cfg(feature = "verif")]
+        crate::verif::event(crate::verif::Event::Installed { outcomes: results.len(), committed_idx: committed.index() });
         drop(results);
         error.map_or(Ok(committed), Err)
     }
@@ -429,22 +455,30 @@ where
                 commit_state,
                 self.cfg.disable_nonce_check,
             );
+            #[cfg(feature = "verif")]
+            crate::verif::run_begin(concurrency_level + 2);
             thread::scope(|scope| {
                 // If spawning or joining itself panics, cancel children before `scope` waits for
                 // them. Each child has the same guard for panics in its scheduler role.
                 let _scope_cancel = self.cancel_on_panic();
                 let finality_thread = scope.spawn(|| {
+                    #[cfg(feature = "verif")]
+                    let _verif_thread = crate::verif::thread_guard(crate::verif::role::FINALITY);
                     let _cancel = self.cancel_on_panic();
                     self.run_finality_loop();
                     self.metrics.record_execution_time(start_time.elapsed());
                 });
                 let commit_thread = scope.spawn(|| {
+                    #[cfg(feature = "verif")]
+                    let _verif_thread = crate::verif::thread_guard(crate::verif::role::COMMIT);
                     let _cancel = self.cancel_on_panic();
                     self.run_commit_loop(&mut committer)
                 });
                 let mut workers = Vec::with_capacity(concurrency_level);
                 for _ in 0..concurrency_level {
                     workers.push(scope.spawn(|| {
+                        #[cfg(feature = "verif")]
+                        let _verif_thread = crate::verif::thread_guard(crate::verif::role::WORKER);
                         let _cancel = self.cancel_on_panic();
                         let incarnation_db =
                             IncarnationDb::new(&state_view, &self.mv_memory, &beneficiary);
@@ -468,6 +502,8 @@ where
 
                 // Join every role explicitly. `thread::scope` otherwise replaces an automatically
                 // joined child's payload with a generic "scoped thread panicked" panic.
+                #[cfg(feature = "verif")]
+                let _verif_external = crate::verif::external_block();
                 let mut thread_panic = None;
                 let commit_result = match commit_thread.join() {
                     Ok(result) => Some(result),
@@ -533,6 +569,8 @@ where
         WorkerDB: DatabaseRef<Error = DB::Error>,
     {
         let TxVersion { txid, incarnation } = tx_version.clone();
+        #[cfg(feature = "verif")]
+        crate::verif::lock_point(crate::verif::pt::LOCK_TX_STATE, txid, &self.tx_states[txid]);
         let mut tx_state = self.tx_states[txid].lock();
         // Cursor claims are advisory and may become stale after a rewind. The locked status and
         // incarnation are the authority for whether this task may execute.
@@ -548,10 +586,16 @@ where
         }
         self.metrics.record_execution_attempt();
 
+        #[cfg(feature = "verif")]
+        crate::verif::event(crate::verif::Event::AttemptStart { txid, incarnation, committed_idx: self.scheduler_ctx.committed_idx() });
+        #[cfg(feature = "verif")]
+        crate::verif::point(crate::verif::pt::EXEC_START, txid);
         let tx_env = self.txs[txid].clone();
         let IncarnationExecution { result, accesses } =
             executor.execute_incarnation(tx_version.clone(), tx_env);
 
+        #[cfg(feature = "verif")]
+        crate::verif::point(crate::verif::pt::EXEC_DONE, txid);
         // If this incarnation expands its write set, already validated suffix transactions may
         // have missed a new predecessor and validation must rewind to this transaction. Existing
         // dependency/rewind coverage is sufficient when the write set does not expand.
@@ -568,6 +612,8 @@ where
                     blocked_by_beneficiary,
                 } = accesses;
 
+                #[cfg(feature = "verif")]
+                crate::verif::lock_point(crate::verif::pt::LOCK_TX_RESULT, txid, &self.tx_results[txid]);
                 let mut last_result = self.tx_results[txid].lock();
                 if let Some(last_result) = last_result.as_ref() {
                     for location in write_set.iter() {
@@ -577,6 +623,8 @@ where
                         }
                     }
                     for location in &last_result.write_set {
+                        #[cfg(feature = "verif")]
+                        crate::verif::point(crate::verif::pt::EXEC_DROP_WRITE, txid);
                         if !write_set.contains(location) &&
                             let Some(mut written_transactions) = self.mv_memory.get_mut(location)
                         {
@@ -587,6 +635,8 @@ where
                     write_new_locations = true;
                 }
 
+                #[cfg(feature = "verif")]
+                crate::verif::point(crate::verif::pt::EXEC_RECORD_HISTORY, txid);
                 let history_published = if conflict {
                     beneficiary.record_estimate(&tx_version)
                 } else {
@@ -606,12 +656,18 @@ where
                     } else {
                         self.metrics.record_estimate_conflict();
                     }
+                    #[cfg(feature = "verif")]
+                    crate::verif::point(crate::verif::pt::EXEC_DEP_ADD, txid);
                     self.tx_dependency.add(txid, self.latest_unfinalized_blocker(&blocking_txs));
                 } else {
                     // Clearing reverse edges may hand the immediate successor directly to this
                     // worker, avoiding a cursor round trip on a linear dependency chain.
+                    #[cfg(feature = "verif")]
+                    crate::verif::point(crate::verif::pt::EXEC_DEP_REMOVE, txid);
                     next = self.tx_dependency.remove(txid, true);
                 }
+                #[cfg(feature = "verif")]
+                crate::verif::event(crate::verif::Event::AttemptEnd { txid, incarnation, kind: conflict as u32, new_write_locations: write_new_locations });
                 *last_result = Some(TransactionResult {
                     read_set,
                     write_set,
@@ -626,6 +682,8 @@ where
                 conflict = true;
                 let mut write_set = HashSet::new();
 
+                #[cfg(feature = "verif")]
+                crate::verif::lock_point(crate::verif::pt::LOCK_TX_RESULT, txid, &self.tx_results[txid]);
                 let mut last_result = self.tx_results[txid].lock();
                 if let Some(last_result) = last_result.as_mut() {
                     write_set = std::mem::take(&mut last_result.write_set);
@@ -644,15 +702,21 @@ where
                     execute_result: Err(e),
                 });
 
+                #[cfg(feature = "verif")]
+                crate::verif::event(crate::verif::Event::AttemptEnd { txid, incarnation, kind: if blocked_on_estimate { 2 } else if invalid_transaction { 3 } else { 4 }, new_write_locations: false });
                 if blocked_on_estimate {
                     if blocked_by_beneficiary {
                         self.metrics.record_beneficiary_conflict();
                     } else {
                         self.metrics.record_estimate_conflict();
                     }
+                    #[cfg(feature = "verif")]
+                    crate::verif::point(crate::verif::pt::EXEC_DEP_ADD, txid);
                     self.tx_dependency.add(txid, self.latest_unfinalized_blocker(&blocking_txs));
                 } else {
                     self.metrics.record_evm_error_conflict();
+                    #[cfg(feature = "verif")]
+                    crate::verif::point(crate::verif::pt::EXEC_ERR_HEAD_CHECK, txid);
                     if self.scheduler_ctx.committed_idx() == txid {
                         if invalid_transaction {
                             self.abort(AbortReason::FallbackSequential);
@@ -660,11 +724,15 @@ where
                             self.abort(AbortReason::FatalEvmError(txid));
                         }
                     }
+                    #[cfg(feature = "verif")]
+                    crate::verif::point(crate::verif::pt::EXEC_KEY_TX, txid);
                     self.tx_dependency.key_tx(txid, self.scheduler_ctx.commit_cursor());
                 }
             }
         }
 
+        #[cfg(feature = "verif")]
+        crate::verif::point(crate::verif::pt::EXEC_STATUS, txid);
         tx_state.status =
             if conflict { TransactionStatus::Conflict } else { TransactionStatus::Executed };
         self.scheduler_ctx.executed(txid);
@@ -690,7 +758,11 @@ where
     fn validate(&self, beneficiary: &Beneficiary, tx_version: TxVersion) -> Option<Task> {
         let txid = tx_version.txid;
         let incarnation = tx_version.incarnation;
+        #[cfg(feature = "verif")]
+        crate::verif::lock_point(crate::verif::pt::LOCK_TX_STATE, txid, &self.tx_states[txid]);
         let mut tx_state = self.tx_states[txid].lock();
+        #[cfg(feature = "verif")]
+        crate::verif::lock_point(crate::verif::pt::LOCK_TX_RESULT, txid, &self.tx_results[txid]);
         let tx_result = self.tx_results[txid].lock();
         if tx_state.status != TransactionStatus::Validating {
             return None;
@@ -721,12 +793,16 @@ where
         // Capture the timestamp before scanning. A concurrent later rewind then has a newer lower
         // bound and prevents this validation from reaching finality.
         let ts = self.scheduler_ctx.logical_timestamp();
+        #[cfg(feature = "verif")]
+        crate::verif::point(crate::verif::pt::VAL_TS, txid);
         // Every read must still resolve to the same latest preceding incarnation, and that write
         // must not be an estimate. A storage-origin read remains valid only when no preceding
         // multi-version write exists.
         let mut conflict = false;
         let mut dependency: Option<TxId> = None;
         for (location, version) in result.read_set.iter() {
+            #[cfg(feature = "verif")]
+            crate::verif::point(crate::verif::pt::VAL_READ, txid);
             if let ReadVersion::Beneficiary(expected) = version {
                 let validation = beneficiary.validate(txid, expected);
                 if !validation.is_valid() {
@@ -774,6 +850,10 @@ where
             }
         }
 
+        #[cfg(feature = "verif")]
+        crate::verif::event(crate::verif::Event::ValidationEnd { txid, incarnation, ts, conflict });
+        #[cfg(feature = "verif")]
+        crate::verif::point(crate::verif::pt::VAL_VERDICT, txid);
         // update transaction status
         tx_state.status = if conflict {
             self.scheduler_ctx.rewind_validation_to(txid + 1);
@@ -787,10 +867,14 @@ where
         if conflict {
             // update dependency
             let dep_tx = dependency.filter(|&dep| dep >= self.scheduler_ctx.finality_idx());
+            #[cfg(feature = "verif")]
+            crate::verif::point(crate::verif::pt::VAL_DEP_ADD, txid);
             self.tx_dependency.add(txid, dep_tx);
         }
         drop(tx_result);
         drop(tx_state);
+        #[cfg(feature = "verif")]
+        crate::verif::point(crate::verif::pt::VAL_NOTIFY, txid);
         if txid == self.scheduler_ctx.finality_idx() {
             self.finality_wait.notify();
         }
@@ -804,6 +888,8 @@ where
 
     fn mark_mv_estimate(&self, txid: TxId, write_set: &HashSet<LocationAndType>) {
         for location in write_set {
+            #[cfg(feature = "verif")]
+            crate::verif::point(crate::verif::pt::MARK_ESTIMATE, txid);
             if let Some(mut written_transactions) = self.mv_memory.get_mut(location) &&
                 let Some(entry) = written_transactions.get_mut(&txid)
             {
@@ -813,6 +899,8 @@ where
     }
 
     fn execution_task(&self, execute_id: TxId) -> Option<Task> {
+        #[cfg(feature = "verif")]
+        crate::verif::lock_point(crate::verif::pt::LOCK_TX_STATE, execute_id, &self.tx_states[execute_id]);
         let mut tx = self.tx_states[execute_id].lock();
         match tx.status {
             TransactionStatus::Initial | TransactionStatus::Conflict => {
@@ -825,6 +913,8 @@ where
             TransactionStatus::Executing => None,
             _ => {
                 drop(tx);
+                #[cfg(feature = "verif")]
+                crate::verif::point(crate::verif::pt::EXECUTION_TASK, execute_id);
                 self.tx_dependency.remove(execute_id, false);
                 self.metrics.record_useless_dependency_update();
                 None
@@ -834,6 +924,8 @@ where
 
     fn next(&self) -> Option<Task> {
         while !self.scheduler_ctx.finished() && !self.is_aborted() {
+            #[cfg(feature = "verif")]
+            crate::verif::spin();
             if !self.scheduler_ctx.should_schedule(self.tx_dependency.index()) {
                 thread::yield_now();
             }
@@ -841,6 +933,8 @@ where
             if let Some(validation_idx) =
                 self.scheduler_ctx.next_validation_idx(self.tx_dependency.index())
             {
+                #[cfg(feature = "verif")]
+                crate::verif::lock_point(crate::verif::pt::LOCK_TX_STATE, validation_idx, &self.tx_states[validation_idx]);
                 let mut tx = self.tx_states[validation_idx].lock();
                 // Rewinds can make cursor claims duplicate or stale; state under this lock decides
                 // whether a validation task still exists.
